@@ -645,8 +645,15 @@ def main_part(ctx, quick, rng, runner, exe, env):
     for i, (c, r) in enumerate(zip(cases, impl)):
         cls = BYID[c[1]]
         if r is None or len(r) < 11:
-            k = fail_key(cls, c, 'crash')
             phase = US(r[1]) if r and r[0] == -990 else repr(r)
+            if phase in ('build', 'getters') or (r and r[0] in (-995, -997)):
+                # the object could not even be built (the construction crashes, throws or gives nothing): not a save / reload matter
+                ctx.dist('excluded:%s:construction-fails' % cls.name); ctx.cov['tie_excluded'] += 1
+                if ('build:' + cls.name) not in ctx.notes_seen:
+                    ctx.notes_seen.add('build:' + cls.name)
+                    ctx.notes.append('%s: the construction of a recipe fails before any save (%s): %s' % (cls.name, phase, sx_str(c)[:600]))
+                continue
+            k = fail_key(cls, c, 'crash')
             ctx.violation(k, 'saving and reloading a %s crashes the process during: %s' % (cls.name, phase),
                           {'class': cls.name, 'recipe': sx_str(c), 'how': 'build the object of the recipe (harness/C08.cpp, class %d), dumpToNF, createFromNF' % cls.cid})
             found_input = True; ctx.count(sx_str(c)); continue
